@@ -205,7 +205,7 @@ CEnter ==
                                      !.pc = IF ~cfg.dry /\ sr THEN "btag" ELSE "announce", !.i = 1])
    /\ U(<<inputs, ret, stepst, shouldSkip, rt, cap, evlog>>)
 
-\* a raising tag hook is attributed to context.scenario, else context.feature (so a RULE's tag hook marks the FEATURE)
+\* a raising tag hook is attributed to the innermost open element: context.scenario, else context.rule, else context.feature
 CBeforeTag ==
    /\ Top.fn = "container" /\ Top.pc = "btag"
    /\ LET el == Top.el IN
@@ -214,7 +214,7 @@ CBeforeTag ==
       ELSE
          /\ rt' = RtHook(FALSE)
          /\ evlog' = Append(evlog, HookEv("before_tag", el, prog[el].tags[Top.i], Raises, 0, FALSE))
-         /\ hookFailed' = IF Raises THEN [hookFailed EXCEPT ![FeatureOf(el)] = TRUE] ELSE hookFailed
+         /\ hookFailed' = IF Raises THEN [hookFailed EXCEPT ![el] = TRUE] ELSE hookFailed
          /\ stack' = SetTop([Top EXCEPT !.i = Top.i + 1])
    /\ U(<<inputs, ret, stepst, forced, shouldSkip, ctx, cap>>)
 
@@ -278,7 +278,7 @@ CAfterTag ==
       ELSE
          /\ rt' = RtHook(FALSE)
          /\ evlog' = Append(evlog, HookEv("after_tag", el, prog[el].tags[Top.i], Raises, 0, FALSE))
-         /\ hookFailed' = IF Raises THEN [hookFailed EXCEPT ![FeatureOf(el)] = TRUE] ELSE hookFailed
+         /\ hookFailed' = IF Raises THEN [hookFailed EXCEPT ![el] = TRUE] ELSE hookFailed
          /\ stack' = SetTop([Top EXCEPT !.i = Top.i + 1]) /\ U(forced)
    /\ U(<<inputs, ret, stepst, shouldSkip, ctx, cap>>)
 
